@@ -83,5 +83,5 @@ class ExperimentEvaluator:
     def run_experiment(self, **kwargs):
         raise RuntimeError("Code was not loaded")
 
-    def __call__(self, **kwargs):
+    def __call__(self, /, **kwargs):
         return self.run_experiment(**kwargs)
